@@ -155,7 +155,25 @@ def k2(ctx, fx, A, fn, b, node):
         chk(ctx, fn, line, "b:signature" + tag, st["sig"] is True, "signature validation left on", "signature validation disabled for the KB-JWT")
     # (f) the algorithm the KB-JWT is checked with is the KB-JWT's own (its header's `alg`, or the documented default) — never the
     # issuer-signed JWT's: an honest holder may sign with another algorithm than the issuer
-    vnews = [x for x in walk(valn) if x.kind == "call" and (x.d["term"].get("resolved") or "") == "jsonwebtoken::Validation::new" and x.kids]
+    # the constructor(s) this Validation value starts from (through its own mutation history and merges, not through what its arguments
+    # were computed from: the verifier object's history contains the issuer-signed JWT's Validation too)
+    vnews, stack_, seen_ = [], [valn], set()
+    while stack_ and len(seen_) < 2000:
+        x = peel(stack_.pop())
+        if id(x) in seen_:
+            continue
+        seen_.add(id(x))
+        if x.kind == "call" and (x.d["term"].get("resolved") or "") == "jsonwebtoken::Validation::new" and x.kids:
+            vnews.append(x)
+        elif x.kind == "mut" and x.kids:
+            stack_.append(x.kids[0])
+        elif x.kind == "phi":
+            stack_.extend(k_ for k_ in x.kids if k_.kind != "cycle")
+        elif x.kind == "call" and x.d["term"].get("resolved_local") and x.kids:
+            # a crate-local builder returning the Validation: fall back to everything it was computed from
+            vnews.extend(y for y in walk(x) if y.kind == "call" and (y.d["term"].get("resolved") or "") == "jsonwebtoken::Validation::new" and y.kids and y not in vnews)
+        elif x.kind in ("alias", "variant", "field") and x.kids:
+            stack_.append(x.kids[0])
     for vn_ in vnews:
         bad_src = None
         kb_src = False
